@@ -161,6 +161,9 @@ func checkC13(c *Ctx) {
 		}
 	}
 	c.checkM3Handles("O1 handle-methods", rcm)
+	// a handle method writes the value into its own copy of the pre-built metric, never into storage
+	// shared between calls (intact under concurrent reports through one handle; shared with C14 O4)
+	c.checkReentrantHandles("O1 private-copy", []string{"m3"})
 
 	// ---- O2 batching -------------------------------------------------------------------------
 	c.checkBatching("O2", false, true)
